@@ -115,6 +115,11 @@ pub fn roundtrip(p: &Primitive, pl: usize) -> std::result::Result<(), (String, S
             // through the real writer: create the object in an empty storage, save, reload, resolve
             let res = catch(|| -> pdf::error::Result<(Vec<u8>, std::result::Result<Primitive, pdf::error::PdfError>)> {
                 let mut b = PdfBuilder::new(FileOptions::uncached());
+                // the first created object gets number 1: a reference to object 1 stored there would be an object that refers to
+                // itself, a hostile structure (C14) and not a value placement; give such a value another number
+                if matches!(p, Primitive::Reference(r) if r.id == 1) {
+                    b.storage.create(Primitive::Null)?;
+                }
                 let r = b.storage.create(p.clone())?;
                 let id = r.get_ref().get_inner();
                 let bytes = b.build(CatalogBuilder::from_pages(vec![]))?;
